@@ -194,4 +194,113 @@ def check_C08(ctx):
                   assumptions=TRUSTED)
 
 
-CHECKS = {"C11": check_C11, "C09": check_C09, "C16": check_C16, "C17": check_C17, "C15": check_C15, "C10": check_C10, "C12": check_C12, "C08": check_C08}
+# --------------------------------------------------------------------------- C13
+
+C13_INV = ["Terminates", "WeakLaw", "OnlyWhitespaceRemoved", "FacingTextLaw", "BufferIsLastWrite"]
+
+
+def check_C13(ctx):
+    consts = {"N": 2 if ctx.quick else 3, "Policy": '"intended"', "Bits": "FALSE" if ctx.quick else "TRUE"}
+    cases, _ = ctx.tlc_mc("MC_C13", mc_cfg(consts, C13_INV + ["EmitCase"]), timeout=3000)
+    validate_by_module(ctx, ctx.run_cases(cases))
+    gen = ctx.gen("progtrim", 3000 if ctx.quick else 40000)
+    for g in gen:
+        g["tm"] = "TraceC13"
+    validate_by_module(ctx, ctx.run_cases(gen))
+    ctx.exhaustive = False
+    return finish(ctx, rule="MC_C13: every flat sequence of <= %s elements (6 texts, 3 objects and an assign with all hyphen "
+                            "combinations) and 7 block skeletons x hyphen subsets x rotating texts, explored on the trim-writer "
+                            "model and checked against the declarative laws; each (program, hyphen-free twin) pair is rendered "
+                            "by the implementation and validated by TraceC13 (no-hyphen identity, weak law on the observed "
+                            "outputs, facing-text law against the reference); plus seeded random programs with hyphens"
+                            % consts["N"], assumptions=TRUSTED)
+
+
+# --------------------------------------------------------------------------- C20
+
+def fault_events(obs):
+    """Flatten the runs of `fault` observations into the event stream TraceC20 consumes."""
+    events, runs = [], {}
+    for o in obs:
+        if o.get("outcome") == "skip":
+            raise Infra("fault case could not be concretised: %s" % o.get("msg"))
+        for j, r in enumerate(o["runs"]):
+            rid = "%s#%d" % (o["id"], j)
+            runs[rid] = (o, r)
+            events.append({"ev": "start", "id": rid, "prog": o["prog"], "env": o["env"], "ref": o["ref"]})
+            for w in r["writes"]:
+                events.append({"ev": "write", "id": rid, "b": w["b"], "n": w["n"], "failed": w["failed"]})
+            events.append({"ev": "end", "id": rid, "outcome": r["outcome"], "srcerr": bool(r["srcerr"]),
+                           "carries": bool(r["carries"])})
+    return events, runs
+
+
+def validate_faults(ctx, obs):
+    import vcheck
+    events, runs = fault_events(obs)
+    # cut the stream into chunks at run boundaries
+    chunks, cur = [], []
+    for e in events:
+        cur.append(e)
+        if e["ev"] == "end" and len(cur) > 6000:
+            chunks.append(cur)
+            cur = []
+    if cur:
+        chunks.append(cur)
+    cfg = open(os.path.join(vcheck.SPEC, "TraceC20.cfg")).read()
+    for ch in chunks:
+        path = os.path.join(ctx.scratch, "trace_c20.ndjson")
+        with open(path, "w") as f:
+            for e in ch:
+                f.write(json.dumps(e, separators=(",", ":")) + "\n")
+        res = vcheck.run_tlc(ctx.scratch, "TraceC20", cfg, workers=1, timeout=1200, env={"LQ_TRACE": path}, heap="3g")
+        os.remove(path)
+        if res.violation:
+            raise Infra("TraceC20 stopped: %s\n%s" % (res.violation, res.raw_tail))
+        ctx.states += res.distinct
+        ctx.transitions += res.states
+        nend = sum(1 for e in ch if e["ev"] == "end")
+        seen = 0
+        for line in res.lines:
+            if line.startswith('<<"V"'):
+                t = vcheck.parse_tuple_line(line)
+                seen += 1
+                o, r = runs[t[1]]
+                if t[2] == "REJECT":
+                    oo = dict(o)
+                    oo.pop("runs", None)
+                    oo.update({"id": t[1], "outcome": r["outcome"], "k": r["k"], "keep": r["keep"], "entry": r["entry"],
+                               "panic": r.get("panic", ""), "panicat": r.get("panicat", ""), "msg": r.get("msg", ""),
+                               "writes": len(r["writes"])})
+                    ctx.reject(oo, json.loads(t[3]), "writer fails at call %d keeping %d (%s)" % (r["k"], r["keep"], r["entry"]))
+                else:
+                    ctx.validated += 1
+                    ctx.nontrivial.add((o["text"], r["k"], r["keep"], r["entry"]))
+        if seen != nend:
+            raise Infra("TraceC20 judged %d of %d runs" % (seen, nend))
+    for o in obs[:3]:
+        ctx.samples.append({"template": o["text"], "reference_output": bytes(o["ref"]).decode("utf-8", "replace"),
+                            "runs": len(o["runs"]),
+                            "example_run": {k: v for k, v in o["runs"][min(2, len(o["runs"]) - 1)].items() if k != "writes"}})
+
+
+def check_C20(ctx):
+    cases, _ = ctx.tlc_mc("MC_C20", mc_cfg({"FlushPolicy": '"return"'},
+                                           ["NeverPanics", "AcceptedIsPrefix", "NoSuccessAfterFault", "FaultReported",
+                                            "NoFaultNoError", "Terminates", "EmitCase"], props=["NoCallAfterFault"]))
+    gen = ctx.gen("prognoerr", 40 if ctx.quick else 1500)
+    for g in gen:
+        g["kind"] = "fault"
+        g.pop("strict", None)
+    obs = ctx.run_cases(cases + gen)
+    validate_faults(ctx, obs)
+    ctx.exhaustive = False
+    return finish(ctx, rule="MC_C20: 12 templates covering every place the implementation writes x every failing call k x "
+                            "{0, 1, all} bytes kept, explored on the render machine with the prefix/no-success/no-panic "
+                            "invariants in every state; the implementation renders each template (and seeded random programs) "
+                            "into a writer failing at every call of its own fault-free run (FRender and ParseAndFRender), every "
+                            "Write is logged and TraceC20 replays the log through the specification's sink; non-trivial = "
+                            "distinct (template, k, keep, entry) runs", assumptions=TRUSTED)
+
+
+CHECKS = {"C11": check_C11, "C09": check_C09, "C16": check_C16, "C17": check_C17, "C15": check_C15, "C10": check_C10, "C12": check_C12, "C08": check_C08, "C13": check_C13, "C20": check_C20}
